@@ -169,125 +169,131 @@ func checkOne(c *core.Ctx, text string, hs, is gen.DataSpec, verbose bool) {
 		return
 	}
 	rI := tx.Run(text, is.Build())
-	var inertTags []*htmltok.Token
-	tokH := htmltok.Tokenize(rH.Out, htmltok.Options{})
-	var tokI htmltok.Result
-	if rI.OK() {
-		tokI = htmltok.Tokenize(rI.Out, htmltok.Options{})
-		inertTags = startTags(tokI)
-	}
-	hostTags := startTags(tokH)
-	if len(inertTags) != len(hostTags) {
-		inertTags = nil // structures differ (C01's business); no prefix information
-	}
-	tagIndex := map[*htmltok.Token]int{}
-	for i, t := range hostTags {
-		tagIndex[t] = i
-	}
-	// static prefix (decoded) of the hostile attribute's value according to the inert run
-	staticPrefix := func(t *htmltok.Token, name string) (string, bool) {
-		if inertTags == nil {
-			return "", false
+	// the output is read both by a parser without and by one with scripting (noscript)
+	for oi, opt := range []htmltok.Options{{}, {Scripting: true}} {
+		if oi == 1 && !strings.Contains(strings.ToLower(rH.Out), "<noscript") {
+			break
 		}
-		it := inertTags[tagIndex[t]]
-		if it.Name != t.Name {
-			return "", false
+		var inertTags []*htmltok.Token
+		tokH := htmltok.Tokenize(rH.Out, opt)
+		var tokI htmltok.Result
+		if rI.OK() {
+			tokI = htmltok.Tokenize(rI.Out, opt)
+			inertTags = startTags(tokI)
 		}
-		a := attrOf(it, name)
-		if a == nil {
-			return "", false
+		hostTags := startTags(tokH)
+		if len(inertTags) != len(hostTags) {
+			inertTags = nil // structures differ (C01's business); no prefix information
 		}
-		v := a.Value
-		if loc := inertLeaf.FindStringIndex(v); loc != nil {
-			v = v[:loc[0]]
-		} else if strings.Contains(v, "about:invalid#zGoSafez") {
-			v = v[:strings.Index(v, "about:invalid#zGoSafez")]
+		tagIndex := map[*htmltok.Token]int{}
+		for i, t := range hostTags {
+			tagIndex[t] = i
 		}
-		return htmltok.DecodeAttrValue(v), true
-	}
-	// 1. marker locations
-	rendered := false
-	in := tokH.Input
-	var lastStart *htmltok.Token
-	_ = lastStart
-	for _, loc := range markerRe.FindAllStringIndex(in, -1) {
-		rendered = true
-		pos := loc[0]
-		w := htmltok.Locate(tokH, pos)
-		switch w.Kind {
-		case "text":
-			elem := enclosing(tokH, w.Tok)
-			c.Hist("marker_location", "text:"+w.Mode+":"+elem)
-			if w.Mode == "script" || w.Mode == "rawtext" && elem == "style" {
-				c.Violation(k, "template %q: untrusted datum %s appears inside the body of a %s element: %q", text, in[loc[0]:loc[1]], elem, rH.Out)
-				return
+		// static prefix (decoded) of the hostile attribute's value according to the inert run
+		staticPrefix := func(t *htmltok.Token, name string) (string, bool) {
+			if inertTags == nil {
+				return "", false
 			}
-		case "comment":
-			c.Violation(k, "template %q: untrusted datum %s appears inside an HTML comment: %q", text, in[loc[0]:loc[1]], rH.Out)
-			return
-		case "attr-value":
-			name := w.Attr.Name
-			c.Hist("marker_location", "attr:"+name)
-			if w.Dup {
-				continue
+			it := inertTags[tagIndex[t]]
+			if it.Name != t.Name {
+				return "", false
 			}
-			if strings.HasPrefix(name, "on") || name == "style" || name == "srcdoc" {
-				c.Violation(k, "template %q: untrusted datum %s appears inside the %s attribute of <%s>: %q", text, in[loc[0]:loc[1]], name, w.Tok.Name, rH.Out)
-				return
+			a := attrOf(it, name)
+			if a == nil {
+				return "", false
 			}
-			if w.Tok.Type == htmltok.StartTag && loadsCode(w.Tok, name) {
-				byMarker := htmltok.DecodeAttrValue(in[w.Attr.ValStart:pos])
-				pre, ok := staticPrefix(w.Tok, name)
-				if !ok {
-					c.Count("origin_check_by_marker_only", 1)
-					pre = byMarker
-				}
-				if !refs.SafeTRUPrefix(pre) || !refs.SafeTRUPrefix(byMarker) {
-					c.Violation(k, "template %q: untrusted datum %s appears in %s of <%s>, which loads code, after the static prefix %q that does not fix the origin: %q", text, in[loc[0]:loc[1]], name, w.Tok.Name, pre, rH.Out)
+			v := a.Value
+			if loc := inertLeaf.FindStringIndex(v); loc != nil {
+				v = v[:loc[0]]
+			} else if strings.Contains(v, "about:invalid#zGoSafez") {
+				v = v[:strings.Index(v, "about:invalid#zGoSafez")]
+			}
+			return htmltok.DecodeAttrValue(v), true
+		}
+		// 1. marker locations
+		rendered := false
+		in := tokH.Input
+		var lastStart *htmltok.Token
+		_ = lastStart
+		for _, loc := range markerRe.FindAllStringIndex(in, -1) {
+			rendered = true
+			pos := loc[0]
+			w := htmltok.Locate(tokH, pos)
+			switch w.Kind {
+			case "text":
+				elem := enclosing(tokH, w.Tok)
+				c.Hist("marker_location", "text:"+w.Mode+":"+elem)
+				if w.Mode == "script" || w.Mode == "rawtext" && elem == "style" {
+					c.Violation(k, "template %q: untrusted datum %s appears inside the body of a %s element: %q", text, in[loc[0]:loc[1]], elem, rH.Out)
 					return
 				}
-			}
-		case "doctype", "tag":
-			c.Hist("marker_location", w.Kind)
-		default:
-			c.Hist("marker_location", w.Kind)
-		}
-	}
-	// 2. URL-valued attributes: whole value, decoded, must not have the javascript scheme
-	for ti, t := range hostTags {
-		for ai := range t.Attrs {
-			a := &t.Attrs[ai]
-			if !urlAttr(a.Name) || !a.HasValue {
-				continue
-			}
-			dataDependent := markerRe.MatchString(a.Value)
-			if !dataDependent && inertTags != nil {
-				if ia := attrOf(inertTags[ti], a.Name); ia != nil && ia.Value != a.Value {
-					dataDependent = true
+			case "comment":
+				c.Violation(k, "template %q: untrusted datum %s appears inside an HTML comment: %q", text, in[loc[0]:loc[1]], rH.Out)
+				return
+			case "attr-value":
+				name := w.Attr.Name
+				c.Hist("marker_location", "attr:"+name)
+				if w.Dup {
+					continue
 				}
-			}
-			if !dataDependent {
-				continue
-			}
-			c.Count("url_attributes_checked", 1)
-			dec := htmltok.DecodeAttrValue(a.Value)
-			if a.Name == "srcset" {
-				for _, cand := range refs.Srcset(dec) {
-					if refs.Scheme(cand.URL) == "javascript" {
-						c.Violation(k, "template %q: srcset of <%s> has the candidate %q with the javascript scheme: %q", text, t.Name, cand.URL, rH.Out)
+				if strings.HasPrefix(name, "on") || name == "style" || name == "srcdoc" {
+					c.Violation(k, "template %q: untrusted datum %s appears inside the %s attribute of <%s>: %q", text, in[loc[0]:loc[1]], name, w.Tok.Name, rH.Out)
+					return
+				}
+				if w.Tok.Type == htmltok.StartTag && loadsCode(w.Tok, name) {
+					byMarker := htmltok.DecodeAttrValue(in[w.Attr.ValStart:pos])
+					pre, ok := staticPrefix(w.Tok, name)
+					if !ok {
+						c.Count("origin_check_by_marker_only", 1)
+						pre = byMarker
+					}
+					if !refs.SafeTRUPrefix(pre) || !refs.SafeTRUPrefix(byMarker) {
+						c.Violation(k, "template %q: untrusted datum %s appears in %s of <%s>, which loads code, after the static prefix %q that does not fix the origin: %q", text, in[loc[0]:loc[1]], name, w.Tok.Name, pre, rH.Out)
 						return
 					}
 				}
-				continue
-			}
-			if refs.Scheme(dec) == "javascript" {
-				c.Violation(k, "template %q: %s of <%s> decodes to %q, which has the javascript scheme: %q", text, a.Name, t.Name, dec, rH.Out)
-				return
+			case "doctype", "tag":
+				c.Hist("marker_location", w.Kind)
+			default:
+				c.Hist("marker_location", w.Kind)
 			}
 		}
-	}
-	if rendered {
-		c.DistinctS(text, util.JSON(hs))
+		// 2. URL-valued attributes: whole value, decoded, must not have the javascript scheme
+		for ti, t := range hostTags {
+			for ai := range t.Attrs {
+				a := &t.Attrs[ai]
+				if !urlAttr(a.Name) || !a.HasValue {
+					continue
+				}
+				dataDependent := markerRe.MatchString(a.Value)
+				if !dataDependent && inertTags != nil {
+					if ia := attrOf(inertTags[ti], a.Name); ia != nil && ia.Value != a.Value {
+						dataDependent = true
+					}
+				}
+				if !dataDependent {
+					continue
+				}
+				c.Count("url_attributes_checked", 1)
+				dec := htmltok.DecodeAttrValue(a.Value)
+				if a.Name == "srcset" {
+					for _, cand := range refs.Srcset(dec) {
+						if refs.Scheme(cand.URL) == "javascript" {
+							c.Violation(k, "template %q: srcset of <%s> has the candidate %q with the javascript scheme: %q", text, t.Name, cand.URL, rH.Out)
+							return
+						}
+					}
+					continue
+				}
+				if refs.Scheme(dec) == "javascript" {
+					c.Violation(k, "template %q: %s of <%s> decodes to %q, which has the javascript scheme: %q", text, a.Name, t.Name, dec, rH.Out)
+					return
+				}
+			}
+		}
+		if rendered && oi == 0 {
+			c.DistinctS(text, util.JSON(hs))
+		}
 	}
 }
 
